@@ -22,7 +22,7 @@ func init() {
 	fw.Register(&fw.Check{
 		ID:    "C05",
 		Level: "exploration",
-		Rule: "cases: for each of 10 list kinds (block statements, statements of mixed kinds, bare break / continue statements, case-clause bodies, composite-literal elements, call arguments, struct fields, parenthesised value specs, and composite-literal elements / call arguments that are package-qualified identifiers restored with import management) and n = 1..3 " +
+		Rule: "cases: for each of 11 list kinds (block statements, statements of mixed kinds, bare break / continue statements, bare blocks, case-clause bodies, composite-literal elements, call arguments, struct fields, parenthesised value specs, and composite-literal elements / call arguments that are package-qualified identifiers restored with import management) and n = 1..3 " +
 			"elements (n = 4 and seeded longer lists in the thorough tier), EVERY assignment of None/NewLine/EmptyLine to Before/After of every element (3^(2n), exhaustive), combined with " +
 			"each comment pattern: none, End line comment, Start line comment, End \"\\n\", End \"\\n\\n\", End line comment + Start line comment. Reference model written from the " +
 			"statement: adjacent After/Before combine by max; one blank line iff that max is EmptyLine (or two explicit \"\\n\" decorations were given), none otherwise; Before of the first " +
@@ -35,7 +35,7 @@ func init() {
 			"top-level declarations are excluded: go/printer forces blank lines between declarations of different kinds regardless of positions",
 			"struct fields and parenthesised specs: gofmt strips blank lines directly after '{'/'(' and before '}'/')', so only between-element blank lines are asserted there",
 		},
-		Required: map[string]int{"list_kinds": 10, "patterns": 9},
+		Required: map[string]int{"list_kinds": 11, "patterns": 9},
 	})
 }
 
@@ -48,6 +48,7 @@ type c05Kind struct {
 	stmtLevel bool
 	imports   bool // elements are package-qualified identifiers: decorated and restored with import management
 	keywords  bool // elements are bare break / continue statements (located by keyword, not by name)
+	blocks    bool // elements are bare blocks "{ }" (two lines each: located by their braces)
 	// openDecs returns the decoration list that sits directly after the opening delimiter of the
 	// container (BlockStmt.Lbrace, CompositeLit.Lbrace, CallExpr.Lparen, CaseClause.Colon ...)
 	openDecs func(f *dst.File) *dst.Decorations
@@ -112,6 +113,22 @@ var c05Kinds = []c05Kind{
 		},
 		openDecs: func(f *dst.File) *dst.Decorations {
 			return &f.Decls[0].(*dst.FuncDecl).Body.List[0].(*dst.ForStmt).Body.Decs.Lbrace
+		}},
+	{name: "bare-blocks", edges: true, stmtLevel: true, blocks: true,
+		// empty bare blocks as statements: the node itself carries End decorations and After spacing
+		tmpl: func(n int) string {
+			s := "package p\n\nfunc f() {\n"
+			for range names(n) {
+				s += "\t{\n\t}\n"
+			}
+			return s + "}\n"
+		},
+		elems: func(f *dst.File, n int) []dst.Node {
+			var out []dst.Node
+			for _, s := range f.Decls[0].(*dst.FuncDecl).Body.List {
+				out = append(out, s)
+			}
+			return out
 		}},
 	{name: "case-body", edges: false, stmtLevel: true,
 		tmpl: func(n int) string {
@@ -232,7 +249,7 @@ func init() {
 	for i := range c05Kinds {
 		k := &c05Kinds[i]
 		switch k.name {
-		case "block-statements", "mixed-statements":
+		case "block-statements", "mixed-statements", "bare-blocks":
 			k.openDecs = func(f *dst.File) *dst.Decorations { return &f.Decls[0].(*dst.FuncDecl).Body.Decs.Lbrace }
 		case "case-body":
 			k.openDecs = func(f *dst.File) *dst.Decorations {
@@ -364,15 +381,37 @@ func c05Case(c *fw.Ctx, kind c05Kind, n int, pattern string, sp []dst.SpaceType,
 	closeLine, openLine := 0, 0
 	depthOpen := false
 	elemTok := map[string]int{}
+	endTok := map[string]int{}
+	endLine := map[string]int{}
 	kwSeen := 0
+	braceDepth := 0
 	for i, t := range toks {
+		if kind.blocks {
+			switch t.Tok {
+			case token.LBRACE:
+				braceDepth++
+				if braceDepth == 2 {
+					kwSeen++
+					name := fmt.Sprintf("elem%d", kwSeen)
+					line[name] = t.Line
+					elemTok[name] = i
+				}
+			case token.RBRACE:
+				if braceDepth == 2 {
+					name := fmt.Sprintf("elem%d", kwSeen)
+					endLine[name] = t.Line
+					endTok[name] = i
+				}
+				braceDepth--
+			}
+		}
 		if kind.keywords && (t.Tok == token.BREAK || t.Tok == token.CONTINUE) {
 			kwSeen++
 			name := fmt.Sprintf("elem%d", kwSeen)
 			line[name] = t.Line
 			elemTok[name] = i
 		}
-		if !kind.keywords && t.Tok == token.IDENT && strings.HasPrefix(t.Lit, "elem") {
+		if !kind.keywords && !kind.blocks && t.Tok == token.IDENT && strings.HasPrefix(t.Lit, "elem") {
 			if _, seen := elemTok[t.Lit]; !seen {
 				elemTok[t.Lit] = i
 			}
@@ -399,8 +438,12 @@ func c05Case(c *fw.Ctx, kind c05Kind, n int, pattern string, sp []dst.SpaceType,
 		}
 	}
 	lastName := fmt.Sprintf("elem%d", n)
+	lastIdx, haveLast := elemTok[lastName]
+	if e, ok := endTok[lastName]; ok {
+		lastIdx = e
+	}
 	for i := range toks {
-		if lt, ok := elemTok[lastName]; ok && i == lt {
+		if haveLast && i == lastIdx {
 			depth := 0
 			for j := i + 1; j < len(toks); j++ {
 				switch toks[j].Tok {
@@ -432,6 +475,9 @@ func c05Case(c *fw.Ctx, kind c05Kind, n int, pattern string, sp []dst.SpaceType,
 	for i := 0; i+1 < n; i++ {
 		a, b := fmt.Sprintf("elem%d", i+1), fmt.Sprintf("elem%d", i+2)
 		la, lb := line[a], line[b]
+		if e, ok := endLine[a]; ok {
+			la = e // a two-line element ends on the line of its closing brace
+		}
 		if i == target && endBlock {
 			if line[c05Block] != la {
 				fail("end-comment-placement", fmt.Sprintf("End block comment starts on line %d, its element is on line %d (want the same line)", line[c05Block], la))
@@ -508,6 +554,9 @@ func c05Case(c *fw.Ctx, kind c05Kind, n int, pattern string, sp []dst.SpaceType,
 	}
 	if openLine > 0 && closeLine > 0 {
 		first, last := line["elem1"], line[lastName]
+		if e, ok := endLine[lastName]; ok {
+			last = e
+		}
 		if endBlock && target == n-1 {
 			last = line[c05Block] + strings.Count(c05Block, "\n")
 		}
@@ -556,6 +605,18 @@ func c05EdgeCalibration(kind c05Kind) (open, close bool) {
 	defer c05CalibMu.Unlock()
 	if v, ok := c05Calib[kind.name]; ok {
 		return v[0], v[1]
+	}
+	if kind.blocks {
+		// the container is a function body, as for block-statements: use that calibration
+		for _, k := range c05Kinds {
+			if k.name == "block-statements" {
+				c05CalibMu.Unlock()
+				o, cl := c05EdgeCalibration(k)
+				c05CalibMu.Lock()
+				c05Calib[kind.name] = [2]bool{o, cl}
+				return o, cl
+			}
+		}
 	}
 	src := kind.tmpl(2)
 	lines := strings.Split(src, "\n")
